@@ -63,10 +63,13 @@ FLOORS = {
               'both_accepted': 6000, 'asjson_runs': 8000, 'asjson_cyclic': 1500, 'asjson_shared': 800,
               'asjson_objectmodels': 1400, 'asjson_asts': 1500, 'asjson_backrefs_rendered': 2000,
               'step_monitor_events': 600000, 'feat:style_tok': 150, 'feat:class_key': 40,
-              'feat:odd_element_names': 60, 'hazard_free_programs': 900, 'route:text': 500, 'route:object': 800},
+              'feat:odd_element_names': 60, 'hazard_free_programs': 900, 'route:text': 500, 'route:object': 800,
+              'feat:long_keywords': 60, 'feat:assoc_join': 100, 'feat:assoc_join:left': 50,
+              'feat:assoc_join:right': 50, 'feat:assoc_join_multiline': 25},
     'thorough': {'programs': 15000, 'json_reloaded': 12000, 'pickle_reloaded': 15000, 'source_reloaded': 7000,
                  'both_accepted': 60000, 'asjson_runs': 80000, 'asjson_cyclic': 15000, 'asjson_shared': 8000,
-                 'step_monitor_events': 6000000, 'hazard_free_programs': 9000},
+                 'step_monitor_events': 6000000, 'hazard_free_programs': 9000, 'feat:long_keywords': 600,
+                 'feat:assoc_join': 1000, 'feat:assoc_join_multiline': 250},
 }
 N = {'quick': 1920, 'thorough': 19200}
 INPUTS = {'quick': 5, 'thorough': 6}
